@@ -272,7 +272,9 @@ func appendTokensForValue(val cty.Value, toks Tokens) Tokens {
 		i := 0
 		for it := val.ElementIterator(); it.Next(); {
 			eKey, eVal := it.Element()
-			if hclsyntax.ValidIdentifier(eKey.AsString()) {
+			// The keyword "for" must be quoted: as the first key of an object
+			// constructor it would otherwise introduce a "for" expression.
+			if hclsyntax.ValidIdentifier(eKey.AsString()) && eKey.AsString() != "for" {
 				toks = append(toks, &Token{
 					Type:  hclsyntax.TokenIdent,
 					Bytes: []byte(eKey.AsString()),
